@@ -371,7 +371,11 @@ impl<'a> Peripheral<'a> {
                     // Request diagnostics to see whether the peripheral responds.
                     Ok(self.send_diagnostics_request(fdl, tx))
                 } else {
-                    // Don't retry when the peripheral may be offline.
+                    // Don't retry when the peripheral may be offline.  The probe was not answered
+                    // (acceptably), so the next probe is a first request again.  Otherwise a
+                    // peripheral that happens to have stored the same frame count bit would answer
+                    // every probe with its stored response and never be detected.
+                    self.fcb.reset();
                     Err((tx, None))
                 }
             }
